@@ -75,7 +75,7 @@ def shrink(case, fails):
 
 def run(ctx):
     quick = ctx.tier == "quick"
-    n_main, n_mis = (7000, 1000) if quick else (600000, 60000)
+    n_main, n_mis = (7000, 1000) if quick else (1200000, 120000)
     ctx.assumptions += [
         "model: one task (harness-owned wasip3_task, C ABI v1 or v2, registration map + lazily created waitable set exactly as SharedTaskState keeps them); every API call is made inside that task (outside any task FutureWriter::drop with a live, non-reading reader trips register_waker's assert — out of the quantifier)",
         "model: payload values are never inspected, so the per-future core carries them symbolically (user's latest accepted write / default / peer's) and the wrapper resolves them; C20_exactly_once's last clause (a user write is accepted only while nothing has been moved) is what makes the symbol unambiguous; the tie compares the concrete numbers",
